@@ -74,6 +74,34 @@ impl Check for Meaning {
             ctx.label("wasm-driver");
             check_whole("wasm", &out, &want, &stmts, &r.text, c.width)?;
         }
+        // closed programs: the formatted program evaluates like the original
+        if c.typed {
+            if let Some(out) = fmt::format_wasm(&r.text, c.width) {
+                ctx.label("evaluated-before-and-after");
+                let run = |text: &str| -> Result<Vec<crate::blots::Obs>, String> {
+                    let s = crate::blots::Sess::new();
+                    s.set_inputs(&[]);
+                    s.run_program(text)
+                };
+                let (a, b) = (run(&r.text), run(&out));
+                let same = match (&a, &b) {
+                    (Ok(x), Ok(y)) => {
+                        x.len() == y.len()
+                            && x.iter().zip(y).all(|(p, q)| match (p, q) {
+                                (Ok(crate::model::MV::Fn(_)), Ok(crate::model::MV::Fn(_))) => true,
+                                (Ok(u), Ok(v)) => u.same_nanclass(v),
+                                (Err(_), Err(_)) => true,
+                                _ => false,
+                            })
+                    }
+                    (Err(_), Err(_)) => true,
+                    _ => false,
+                };
+                if !same {
+                    fail!("evaluation-differs", "the formatted program evaluates differently (width {}):\n--- original results: {:?}\n--- formatted results: {:?}\n--- formatted:\n{}\n--- source:\n{}", c.width, a, b, out, r.text);
+                }
+            }
+        }
         if c.cli {
             ctx.label("cli-driver");
             match fmt::format_cli(ctx, &r.text) {
@@ -126,4 +154,5 @@ fn check_whole(
 pub fn run(ctx: &mut Ctx) {
     ctx.run_random(&Meaning, fmt::strategy(5, 4), ctx.tier.pick(30_000, 500_000));
     ctx.run_random(&Meaning, fmt::strategy(2, 7), ctx.tier.pick(10_000, 200_000));
+    ctx.run_random(&Meaning, fmt::typed_strategy(), ctx.tier.pick(10_000, 200_000));
 }
